@@ -564,9 +564,13 @@ class FusionART(BaseART):
 
         """
         check_is_fitted(self)
-        self.validate_data(X)
         self.check_dimensions(X)
         skip_channels = [self.n + k if k < 0 else k for k in skip_channels]
+        for k in range(self.n):
+            if k not in skip_channels:
+                self.modules[k].validate_data(
+                    X[:, self._channel_indices[k][0] : self._channel_indices[k][1]]
+                )
 
         y = np.zeros((X.shape[0],), dtype=int)
         for i, x in enumerate(X):
